@@ -39,7 +39,7 @@ ASSUMPTIONS = [
     'parse_table(json, ids) is not required to refuse unknown ids',
 ]
 ANCHORS = ['Table.from_hdf5', 'parse_biom_table', 'direct_parse_key', 'direct_slice_data', '_direct_slice_data_sparse_obs', '_direct_slice_data_sparse_samp', 'get_axis_indices', '_subset_table']
-REQUIRED = ['hdf5_default', 'hdf5_no_metadata', 'json_parse_table',
+REQUIRED = ['empty_request_answered', 'hdf5_default', 'hdf5_no_metadata', 'json_parse_table',
             'cli_hdf5', 'cli_json', 'cli_json_serialisations_agree',
             'unknown_refused_hdf5', 'unknown_refused_hdf5_nomd',
             'unknown_refused_cli', 'other_axis_vectors_dropped',
@@ -81,14 +81,14 @@ def _cli(args):
 
 def subsets_for(r, ids, exhaustive):
     if exhaustive:
-        out = []
+        out = [[]]        # the request that names nothing
         for k in range(1, len(ids) + 1):
             for c in itertools.combinations(ids, k):
                 c = list(c)
                 r.shuffle(c)
                 out.append(c)
         return out
-    out = []
+    out = [[]] if r.random() < .3 else []
     for _ in range(4):
         c = r.sample(ids, r.randint(1, len(ids)))
         out.append(c)
@@ -144,100 +144,116 @@ def run_case(ctx, index):
                          whole.obs_md, whole.samp_md, whole.type)
         nontrivial_any = False
         for sub in subsets_for(r, ids, exhaustive):
-            desc = dict(desc0, ids=sub)
-            filt = expected_filter(wspec, sub, axis, False)
-            dropped_exp, did_drop = drop_empty_other(filt, axis)
-            proper = len(sub) < len(ids)
-            if variant == 'hdf5':
-                with h5py.File(h5p, 'r') as f:
-                    res = biom.Table.from_hdf5(f, ids=list(sub), axis=axis)
-                _cmp(res, dropped_exp, 'C14/hdf5-subset', desc)
-                ctx.count('hdf5_default')
-                if did_drop:
-                    ctx.count('other_axis_vectors_dropped')
-                nt = proper and did_drop
-            elif variant == 'hdf5-nomd':
-                with h5py.File(h5p, 'r') as f:
-                    res = biom.Table.from_hdf5(f, ids=list(sub), axis=axis,
-                                               subset_with_metadata=False)
-                e = filt.copy()
-                e.obs_md = e.samp_md = None
-                e.type = None
-                _cmp(res, e, 'C14/hdf5-nomd-subset', desc)
-                ctx.count('hdf5_no_metadata')
-                nt = proper
-            elif variant == 'json':
-                how = r.choice(['text', 'handle', 'lines'])
-                tx = sers[r.choice(sorted(sers))]
-                if how == 'text':
-                    res = biom.parse_table(tx, ids=list(sub), axis=axis)
-                elif how == 'lines':
-                    res = biom.parse_table(tx.splitlines(True), ids=set(sub),
-                                           axis=axis)
-                else:
-                    with open(jsp, 'w', encoding='utf-8') as f:
-                        f.write(tx)
-                    with open(jsp, encoding='utf-8') as f:
-                        res = biom.parse_table(f, ids=list(sub), axis=axis)
-                _cmp(res, dropped_exp, 'C14/json-parse-subset', desc)
-                ctx.count('json_parse_table')
-                if did_drop:
-                    ctx.count('other_axis_vectors_dropped')
-                nt = proper and did_drop
-            elif variant == 'cli-hdf5':
-                with open(idp, 'w', encoding='utf-8') as f:
-                    f.write('#comment line\n' + '\n'.join(sub) + '\n')
-                if os.path.exists(outp):
-                    os.remove(outp)
-                rr = _cli(['subset-table', '-i', h5p, '-a', axis, '-s', idp,
-                           '-o', outp])
-                if rr.exit_code != 0:
-                    raise Violation('C14/cli-hdf5-failed', 'exit %s %r %r; '
-                                    'case=%r' % (rr.exit_code,
-                                                 rr.output[-300:],
-                                                 rr.exception, desc))
-                res = biom.load_table(outp)
-                _cmp(res, dropped_exp, 'C14/cli-hdf5-subset', desc)
-                ctx.count('cli_hdf5')
-                nt = proper and did_drop
-            else:
-                with open(idp, 'w', encoding='utf-8') as f:
-                    f.write('\n'.join('%s\tignored column' % i
-                                      for i in sub) + '\n')
-                outs = {}
-                for nm, tx in sers.items():
-                    with open(jsp, 'w', encoding='utf-8') as f:
-                        f.write(tx)
+            try:
+                desc = dict(desc0, ids=sub)
+                filt = expected_filter(wspec, sub, axis, False)
+                dropped_exp, did_drop = drop_empty_other(filt, axis)
+                proper = len(sub) < len(ids)
+                if variant == 'hdf5':
+                    with h5py.File(h5p, 'r') as f:
+                        res = biom.Table.from_hdf5(f, ids=list(sub), axis=axis)
+                    _cmp(res, dropped_exp, 'C14/hdf5-subset', desc)
+                    ctx.count('hdf5_default')
+                    if did_drop:
+                        ctx.count('other_axis_vectors_dropped')
+                    nt = proper and did_drop
+                elif variant == 'hdf5-nomd':
+                    with h5py.File(h5p, 'r') as f:
+                        res = biom.Table.from_hdf5(f, ids=list(sub), axis=axis,
+                                                   subset_with_metadata=False)
+                    e = filt.copy()
+                    e.obs_md = e.samp_md = None
+                    e.type = None
+                    _cmp(res, e, 'C14/hdf5-nomd-subset', desc)
+                    ctx.count('hdf5_no_metadata')
+                    nt = proper
+                elif variant == 'json':
+                    how = r.choice(['text', 'handle', 'lines'])
+                    tx = sers[r.choice(sorted(sers))]
+                    if how == 'text':
+                        cont = r.choice([list, tuple, np.array, frozenset])
+                        res = biom.parse_table(tx, ids=cont(sub), axis=axis)
+                    elif how == 'lines':
+                        res = biom.parse_table(tx.splitlines(True), ids=set(sub),
+                                               axis=axis)
+                    else:
+                        with open(jsp, 'w', encoding='utf-8') as f:
+                            f.write(tx)
+                        with open(jsp, encoding='utf-8') as f:
+                            res = biom.parse_table(f, ids=list(sub), axis=axis)
+                    _cmp(res, dropped_exp, 'C14/json-parse-subset', desc)
+                    ctx.count('json_parse_table')
+                    if did_drop:
+                        ctx.count('other_axis_vectors_dropped')
+                    nt = proper and did_drop
+                elif variant == 'cli-hdf5':
+                    with open(idp, 'w', encoding='utf-8') as f:
+                        f.write('#comment line\n' + '\n'.join(sub) + '\n')
                     if os.path.exists(outp):
                         os.remove(outp)
-                    rr = _cli(['subset-table', '-j', jsp, '-a', axis, '-s',
-                               idp, '-o', outp])
+                    rr = _cli(['subset-table', '-i', h5p, '-a', axis, '-s', idp,
+                               '-o', outp])
+                    if rr.exit_code != 0 and not sub:
+                        raise RuntimeError('refused')
                     if rr.exit_code != 0:
-                        raise Violation('C14/cli-json-failed/' + nm,
-                                        'exit %s %r %r; case=%r' %
-                                        (rr.exit_code, rr.output[-300:],
-                                         rr.exception, desc))
-                    with open(outp, encoding='utf-8') as f:
-                        out = f.read()
-                    try:
-                        doc = jsonspec.loads_strict(out)
-                    except jsonspec.NotStrictJSON as e:
-                        raise Violation('C14/cli-json-malformed/' + nm,
-                                        '%s; output=%r; case=%r' %
-                                        (e, out[:400], desc))
-                    outs[nm] = doc
-                    res = biom.Table.from_json(doc)
-                    _cmp(res, filt, 'C14/cli-json-subset/' + nm, desc)
-                    ctx.count('cli_json')
-                ref = outs['native']
-                for nm, doc in outs.items():
-                    if doc != ref:
-                        raise Violation('C14/cli-json-serialisation-'
-                                        'dependent', 'output for %s differs '
-                                        'from the native one; case=%r' %
-                                        (nm, desc))
-                ctx.count('cli_json_serialisations_agree')
-                nt = True
+                        raise Violation('C14/cli-hdf5-failed', 'exit %s %r %r; '
+                                        'case=%r' % (rr.exit_code,
+                                                     rr.output[-300:],
+                                                     rr.exception, desc))
+                    res = biom.load_table(outp)
+                    _cmp(res, dropped_exp, 'C14/cli-hdf5-subset', desc)
+                    ctx.count('cli_hdf5')
+                    nt = proper and did_drop
+                else:
+                    with open(idp, 'w', encoding='utf-8') as f:
+                        f.write('\n'.join('%s\tignored column' % i
+                                          for i in sub) + '\n')
+                    outs = {}
+                    for nm, tx in sers.items():
+                        with open(jsp, 'w', encoding='utf-8') as f:
+                            f.write(tx)
+                        if os.path.exists(outp):
+                            os.remove(outp)
+                        rr = _cli(['subset-table', '-j', jsp, '-a', axis, '-s',
+                                   idp, '-o', outp])
+                        if rr.exit_code != 0 and not sub:
+                            raise RuntimeError('refused')
+                        if rr.exit_code != 0:
+                            raise Violation('C14/cli-json-failed/' + nm,
+                                            'exit %s %r %r; case=%r' %
+                                            (rr.exit_code, rr.output[-300:],
+                                             rr.exception, desc))
+                        with open(outp, encoding='utf-8') as f:
+                            out = f.read()
+                        try:
+                            doc = jsonspec.loads_strict(out)
+                        except jsonspec.NotStrictJSON as e:
+                            raise Violation('C14/cli-json-malformed/' + nm,
+                                            '%s; output=%r; case=%r' %
+                                            (e, out[:400], desc))
+                        outs[nm] = doc
+                        res = biom.Table.from_json(doc)
+                        _cmp(res, filt, 'C14/cli-json-subset/' + nm, desc)
+                        ctx.count('cli_json')
+                    ref = outs['native']
+                    for nm, doc in outs.items():
+                        if doc != ref:
+                            raise Violation('C14/cli-json-serialisation-'
+                                            'dependent', 'output for %s differs '
+                                            'from the native one; case=%r' %
+                                            (nm, desc))
+                    ctx.count('cli_json_serialisations_agree')
+                    nt = True
+            except Violation:
+                raise
+            except Exception:
+                if sub:
+                    raise
+                # a request naming no id at all may be refused
+                ctx.count('empty_request_refused')
+                continue
+            if not sub:
+                ctx.count('empty_request_answered')
             nontrivial_any = nontrivial_any or nt
             ctx.case(desc, bool(nt))
         # ----------------------------------------------- unknown id
